@@ -291,7 +291,7 @@ _more("C10", "average under a 6 KiB dask chunk size (unequal blocks along the mo
 _more("C11", "Read - edit in place - read again on one object; translate_internal(copy=False).")
 _more("C12", "First feature added to a table without feature columns.")
 _more("C13", "The caller's data frame is untouched by from_dataframe and used twice.")
-_more("C14", "Components overwritten between two simulations; molecules straddling the lower z face in projection mode.")
+_more("C14", "Components overwritten between two simulations; molecules straddling the lower z face in projection mode; tilt series and arbitrary projection planes of cubic simulators against the analytic projection of the planted Gaussian particles (3 % of the peak); coloured simulations of order-0/1 simulators against the colour-weighted sum of single-molecule simulations.")
 _more("C15", "Loaders used before binning; batches with a tomogram without molecules and explicit non-enumerating ids.")
 _more("C16", "float64 images that need more than 24 significant bits.")
 _more("C17", "Both inputs rescaled by 1e-8 / 1e+8 (gain invariance).")
